@@ -1219,6 +1219,103 @@ pub fn run_c06(cfg: &Cfg, out: &mut Out) -> String {
         let avail = gen_available(&mut r);
         c06_tree(out, &a, avail);
     }
+    // toggle stream: lay out with every node in flow, make one node absolutely positioned through set_style, lay out
+    // again. Nothing outside its subtree may differ from the layout of the tree without the node — unless the same
+    // difference shows on a freshly built tree with the node absolute (then it is the fresh-tree stream's subject).
+    // Exact cache keys + quiet hits, so that the known history effects of the lossy key (C01) do not enter.
+    let base = idx + n;
+    let nt = cfg.n(2500, 40_000);
+    for i in 0..nt {
+        let ci = base + i;
+        if !cfg.wants(ci) {
+            continue;
+        }
+        let mut r = Rng::for_case(cfg.seed, ci);
+        out.begin_case(ci, "absolute-after-toggle");
+        let mut a = gen_tree_min(&mut r, &gc, 3);
+        fn inflow(t: &mut TreeDesc, r: &mut Rng) {
+            t.style.position = Position::Relative;
+            if t.style.display == Display::None {
+                t.style.display = *r.pick(&[Display::Block, Display::Flex, Display::Grid]);
+            }
+            for c in &mut t.children {
+                inflow(c, r);
+            }
+        }
+        inflow(&mut a, &mut r);
+        let avail = gen_available(&mut r);
+        // prefer a node with siblings (a parent left without children becomes a leaf: outside the comparison)
+        let p = {
+            let inf = flatten(&a);
+            let mut nodes = vec![];
+            a.preorder(&mut nodes);
+            let with_siblings: Vec<usize> = (1..inf.len()).filter(|&j| nodes[inf[j].parent.unwrap()].children.len() >= 2).collect();
+            if with_siblings.is_empty() { pick_nonroot(&mut r, a.count(), 1)[0] } else { *r.pick(&with_siblings) }
+        };
+        let mut a2 = a.clone();
+        {
+            let t = node_at_mut(&mut a2, p);
+            t.style.position = Position::Absolute;
+            t.style.inset = Rect { left: gen_inset(&mut r), right: gen_inset(&mut r), top: gen_inset(&mut r), bottom: gen_inset(&mut r) };
+        }
+        let info = flatten(&a2);
+        let sz = info[p].size;
+        let parent = info[p].parent.unwrap();
+        let mut nodes = vec![];
+        a2.preorder(&mut nodes);
+        let _g = crate::hist::ModeGuard::set(crate::hist::Mode::Quiet);
+        let new_style = nodes[p].style.clone();
+        let live = layout_fresh(&a, avail, false).and_then(|(mut t, root)| {
+            catch(move || {
+                let mut ids = vec![];
+                preorder_ids(&t, root, &mut ids);
+                t.set_style(ids[p], new_style).unwrap();
+                t.compute_layout_with_measure(root, avail, |k, a, _id, ctx, _style| measure(k, a, ctx)).unwrap();
+                all_layouts(&t, root, true)
+            })
+        });
+        let c = remove_subtree(&a2, p);
+        let removed = lay(&c, avail);
+        let fresh = lay(&a2, avail);
+        drop(_g);
+        count_tree(out, &a2);
+        out.count(&format!("toggled-parent:{}", display_key(nodes[parent].style.display)));
+        match (live, removed, fresh) {
+            (Ok(ll), Ok(lc), Ok(lf)) => {
+                let outside = |j: usize| j < p || j >= p + sz;
+                let differs_from = |other: &Vec<Layout>, shift: bool| -> Option<usize> {
+                    (0..ll.len()).filter(|&j| outside(j)).find(|&j| {
+                        let jo = if shift && j > p { j - sz } else { j };
+                        other.get(jo).map_or(true, |o| !same_fields(&ll[j], o, true))
+                    })
+                };
+                let became_leaf = node_count_children(&c, parent) == 0;
+                let bad = if became_leaf { None } else { differs_from(&lc, true).filter(|_| differs_from(&lf, false).is_some()) };
+                out.nontrivial();
+                out.count(if became_leaf { "toggle:parent-became-leaf" } else { "toggle:compared" });
+                if differs_from(&lc, true).is_some() && bad.is_none() && !became_leaf {
+                    out.count("toggle:differs-as-on-a-fresh-tree");
+                }
+                let verdict = match bad {
+                    Some(j) => {
+                        out.impl_violation(format!(
+                            "sig:c06-abs-after-toggle-visible node {p} (subtree {sz}, parent {}) was laid out in flow, made absolute through set_style and laid out again: node {j} outside its subtree differs both from the tree without the node and from a fresh tree with the node absolute; avail {} ; tree (after the toggle) = {}",
+                            display_key(nodes[parent].style.display),
+                            avs(avail),
+                            a2.line()
+                        ));
+                        format!("bad c06-abs-after-toggle-visible {j}")
+                    }
+                    None => "ok".to_string(),
+                };
+                out.qa(&format!("note c06-toggle {p} {sz}"), &verdict);
+            }
+            _ => {
+                out.count("toggle:panic");
+                out.qa("panic C06 both", "ok");
+            }
+        }
+    }
     String::new()
 }
 
